@@ -17,6 +17,9 @@ Rule families R9 (finite tables) and R1 (codec parameter agreement):
      encoder's result is appended unmodified; the decoder's result is stored unmodified;
  (e) the constructor stores width / signedness / endianness unchanged.
 The arithmetic of struct / int.from_bytes themselves is a trusted table.
+
+Round 4: (R9-byte-order-single-source) the byte-order spelling is read only by Int.__init__ /
+_compile; (R1-generated-int-codec) generated code decodes / encodes integers through struct only.
 """
 import ast
 
